@@ -152,6 +152,13 @@ def configs(quick):
     for chain in ([0], [1, 0], [2, 0, 1], [0, 1, 2], [3, 1]):
         out.append({"kind": "file", "sector": 4, "chain": chain, "s": 4})
     out.append({"kind": "file", "sector": 3, "chain": [1, 2, 0], "tail": 2, "s": 3})
+    # every injective chain of 3 out of 4 sectors (first/last adjacent with the middle elsewhere, etc.)
+    import itertools as _it
+    for ch in _it.permutations(range(4), 3):
+        if list(ch) not in ([2, 0, 1], [0, 1, 2]):
+            out.append({"kind": "file", "sector": 2, "chain": list(ch), "s": 2})
+    for ch in ([0, 3, 2, 1], [3, 0, 1, 2], [1, 3, 0, 2]):
+        out.append({"kind": "file", "sector": 2, "chain": ch, "s": 2})
     for size in (9, 10, 8, 1):
         out.append({"kind": "sector", "sector": 4, "size": size, "s": 4})
     for n, rag in ((1, 0), (2, 0), (3, 0), (2, 3), (3, 6)):
@@ -163,7 +170,7 @@ def configs(quick):
     out.append({"kind": "reversed", "L": 4, "w": 2, "tail": 3, "s": 4})
     # nestings the tool builds
     for chain, fsize, hdr, L in (([1, 0], 8, 2, 6), ([2, 0, 1], 12, 2, 10), ([2, 0, 1], 11, 3, 6),
-                                 ([0, 2], 8, 0, 8), ([1, 0], 7, 2, 4), ([1, 0], 8, 4, 4)):
+                                 ([0, 2], 8, 0, 8), ([1, 0], 7, 2, 4), ([1, 0], 8, 4, 4), ([0, 3, 2], 12, 1, 11)):
         out.append({"kind": "nest_akai", "sector": 4, "chain": chain, "poff": 5, "fsize": fsize,
                     "hdr": hdr, "L": L, "s": 4})
     out.append({"kind": "nest_akai", "sector": 4, "chain": [1, 0], "poff": 0, "fsize": 8, "hdr": 2,
@@ -173,7 +180,8 @@ def configs(quick):
                     "hdr": hdr, "L": L, "mdf": [2, 3, 1], "s": 4})
         out.append({"kind": "nest_akai", "sector": 4, "chain": chain, "poff": 4, "fsize": fsize,
                     "hdr": hdr, "L": L, "mdf": [2, 4, 1], "s": 4})
-    for chain, off, L in (([1, 0], 2, 6), ([2, 0, 1], 0, 12), ([2, 0, 1], 4, 8), ([0], 0, 4), ([1, 2], 2, 4)):
+    for chain, off, L in (([1, 0], 2, 6), ([2, 0, 1], 0, 12), ([2, 0, 1], 4, 8), ([0], 0, 4), ([1, 2], 2, 4), ([0, 3, 2], 0, 12),
+                          ([1, 3, 2], 2, 8)):
         out.append({"kind": "nest_roland_rev", "sector": 4, "chain": chain, "poff": 6, "off": off, "L": L, "s": 4})
         out.append({"kind": "nest_roland_rev", "sector": 4, "chain": chain, "poff": 6, "off": off, "L": L,
                     "rev": False, "s": 4})
